@@ -194,4 +194,64 @@ def compile (persist : Bool) (sess : List SCall) (apps : Nat → Nat) : Nat → 
 def init (persist : Bool) (n0 : Nat) (sess : List SCall) (apps : Nat → Nat) : State :=
   initRaw n0 (compile persist sess apps)
 
+/-! ### reading the regenerated lock skeletons (`Qfx.Gen.skel_*`, tokens of harness/extract.go) as programs
+
+`ofTok fn o tok`: the steps a skeleton token of function `fn` stands for, given the run-time choices `o` of one call
+(branches of the Go code: ResetSeqNumFlag, IsLoggedOn, how far the channel accepts).  An unknown token has no
+reading (`none`), so a new kind of protected action in the source breaks the obligation instead of being ignored. -/
+
+inductive Fn
+  | queueForSend | sendInReplyTo | dropAndSendInReplyTo | dropAndReset | enqueueBytesAndSend | sendAppMessages
+  deriving DecidableEq, Repr
+
+structure Opts where
+  persist  : Bool := true         -- !DisableMessagePersist
+  reset    : Bool := false        -- Logon carrying ResetSeqNumFlag=Y
+  loggedOn : Bool := true         -- session.IsLoggedOn()
+  lim      : Option Nat := none   -- how much sendQueued gets out
+  num      : Nat := 0             -- number of the replayed message handed to EnqueueBytesAndSend
+
+def ofTok (fn : Fn) (o : Opts) : String → Option (List Step)
+  | "rlockR"   => some [Step.rlockR]
+  | "runlockR" => some [Step.runlockR]
+  | "lockS"    => some [Step.lockS]
+  | "unlockS"  => some [Step.unlockS]
+  | "prep"     => some (prog_prep o.persist o.reset)
+  | "enqueue"  => some [if fn = .enqueueBytesAndSend then Step.enqueueDup o.num else Step.enqueue]
+  | "notify"   => some [Step.notify]
+  | "storeReset" => some [Step.storeReset]
+  | "flush"    => some (if fn = .sendAppMessages ∧ o.loggedOn = false then [] else [Step.flush o.lim])
+  | "dropQ"    => some (if (fn = .sendAppMessages ∨ fn = .enqueueBytesAndSend) ∧ o.loggedOn = true then [] else [Step.dropQ])
+  | _ => none
+
+/-- the program a skeleton denotes -/
+def expand (fn : Fn) (o : Opts) : List String → Option (List Step)
+  | [] => some []
+  | tok :: rest => match ofTok fn o tok, expand fn o rest with
+      | some a, some b => some (a ++ b)
+      | _, _ => none
+
+/-- prepMessageForSend's skeleton read with the same options: the `storeReset; readSeq` pair is the ResetSeqNumFlag
+    branch, `persist` is one of the two store calls of `session.persist` -/
+def expandPrep (persistSkel : List String) (o : Opts) : List String → Option (List Step)
+  | ["readSeq", "storeReset", "readSeq", "persist"] =>
+      if persistSkel = ["storeSaveIncr", "storeIncrSender"] then
+        some ([Step.readSeq] ++ (if o.reset then [Step.storeReset, Step.readSeq] else []) ++
+              [if o.persist then Step.persistIncr else Step.incrOnly])
+      else none
+  | _ => none
+
+/-- resendMessages' skeleton: before `lockR` only the gap fill of the no-persistence path, between `lockR` and
+    `unlockR` nothing but calls that end in EnqueueBytesAndSend, `unlockR` last -/
+def resendShapeOK (genSeqResetSkel : List String) : List String → Bool
+  | toks =>
+    genSeqResetSkel == ["callEnqueueBytesAndSend"] &&
+    (match toks.span (· != "lockR") with
+     | (pre, "lockR" :: post) =>
+        pre.all (· == "callGenerateSequenceReset") &&
+        (match post.reverse with
+         | "unlockR" :: mid => mid.all (fun t => t == "callGenerateSequenceReset" || t == "callEnqueueBytesAndSend" || t == "iterate")
+         | _ => false)
+     | _ => false)
+
 end Qfx.Conc
